@@ -64,7 +64,7 @@ ClaimChecks(pre, post) ==
                ELSE "instance-not-confirmed-gone"
     IN Chk(G_C09_ClaimFinalizer(pre, NodePids, st.created, st.notFound), "G_C09_ClaimFinalizer", sig)
        \o (IF post.exists THEN <<>>
-           ELSE Chk(Inv_C09_NoLeak(st.created, st.inst), "Inv_C09_NoLeak",
+           ELSE Chk(NoLeak(st.created, st.inst), "Inv_C09_NoLeak",
                     IF unpersisted /\ st.restarted THEN "providerID-unpersisted-after-restart"
                     ELSE IF unpersisted THEN "providerID-unpersisted" ELSE "instance-present"))
 
